@@ -33,6 +33,10 @@ ASSUMPTIONS = [
 DRIVER = "source_finder.SourceFinder.find_sources_in_image"
 
 MUTANTS = [
+    ("haversine longitude term written as (1 - cos)/2",
+     "AegeanTools/angle_tools.py",
+     "np.sin(np.radians(dlon) / 2) ** 2",
+     "(1 - np.cos(np.radians(dlon))) / 2", "C01-R17"),
     ("lower amplitude bound of negative sources above the peak",
      "AegeanTools/source_finder.py",
      "                    amp * 1.05 - innerclip * rmsimg[xo, yo],\n",
@@ -247,6 +251,13 @@ def run(ctx):
     # (shared with C13-R3): same relation between peak and amplitude bounds
     from .c13 import r3 as mirror_branches
     mirror_branches(ctx, prog, rule="C01-R16")
+    # the sky sizes / position angle of a component are measured with
+    # angle_tools.gcd / bear / translate (WCSHelper.pix2sky_ellipse): the
+    # formulae must be the exact ones and stay accurate for milli-arcsecond
+    # pixels (shared with C17-R1..R3, R6)
+    from .c17 import formulae as _formulae
+    _formulae(ctx, prog, {"R1": "C01-R17", "R2": "C01-R17", "R3": "C01-R17",
+                          "R6": "C01-R17"})
     n15 = link.argument_binding(ctx, "C01-R15", roots=[DRIVER],
                                 what="blind finding call graph")
     ctx.floor("C01-R15", n15, 20, "internal calls reachable from blind "
